@@ -11,7 +11,7 @@ package autog
 
 // Layout, views C04/C09: placing the connected components next to each other. What the positioners guarantee per
 // component (sepOK, xNonNeg - proved for VAlign and PackRight in internal/phase4) is not visible across the interface
-// dispatch phase.Process, so it is taken as an explicit, reported assumption at the point where the pipeline is done.
+// dispatch phase.Process, so it is taken as an explicit, reported assumption right after the loop that runs the pipeline (and only on paths that run it).
 // From there the code of Layout is verified: the shift loop finds an x that is right of every node of the component,
 // every node already emitted ends at least NodeSpacing left of the running shift, and every node emitted for the
 // current component starts at or right of it.
@@ -20,7 +20,7 @@ package autog
 //@   ensures monitor.m == nil
 //@   ensures_on_panic monitor.m == nil
 //@   assume[spacing|C04,C09] after "for _, opt := range opts" : layoutOpts.params.NodeSpacing >= 0.0
-//@   assume[phase4|C04,C09] after "postprocessor.UnreverseEdges(g)" : g != nil && bandsDistinct(g) && sizesNonNeg(g) && layersCover(g)
+//@   assume[phase4|C04,C09] after "for _, phase := range pipeline" : g != nil && bandsDistinct(g) && sizesNonNeg(g) && layersCover(g)
 //@       && sepOK(g, layoutOpts.params.NodeSpacing) && xNonNeg(g)
 //@   loop range(connected.Components(G))#1 index c
 //@     invariant[|C04,C09] shift >= 0.0 && layoutOpts.params.NodeSpacing >= 0.0
